@@ -33,6 +33,7 @@ def run(ctx):
         "source filter vs coq/listener/Listener.v (table keys, session identities, convs, queue length and order, "
         "which session a datagram is fed to, per-session FEC feed log, filter verdicts)")
     V.merge_report(ctx, rep, summ)
+    U.io_part(ctx)
     U.run_parts(ctx, ["listener", "client"])
     if ctx.broken and not ctx.violations and ctx.quick():
         # search: the monitors over the thorough generators (deeper exhaustive orders, more interleavings)
